@@ -250,6 +250,7 @@ impl GraphEngine {
             pending_label_additions: Vec::new(),
             pending_label_removals: Vec::new(),
             created_external_ids: std::collections::HashSet::new(),
+            pending_vectors: Vec::new(),
             memtable: MemTable::default(),
         }
     }
@@ -862,6 +863,7 @@ pub struct WriteTxn<'a> {
     pending_label_additions: Vec<(InternalNodeId, LabelId)>,
     pending_label_removals: Vec<(InternalNodeId, LabelId)>,
     created_external_ids: std::collections::HashSet<ExternalId>,
+    pending_vectors: Vec<(InternalNodeId, Vec<f32>)>,
     memtable: MemTable,
 }
 
@@ -1008,8 +1010,10 @@ impl<'a> WriteTxn<'a> {
     }
 
     // T203: HNSW Support
+    /// Stages a vector for `id`; it enters the vector index when the transaction commits.
     pub fn set_vector(&mut self, id: InternalNodeId, vector: Vec<f32>) -> Result<()> {
-        self.engine.insert_vector(id, vector)
+        self.pending_vectors.push((id, vector));
+        Ok(())
     }
 
     pub fn commit(self) -> Result<()> {
@@ -1315,6 +1319,11 @@ impl<'a> WriteTxn<'a> {
             for (node, label_id) in self.pending_label_removals {
                 idmap.apply_remove_label(&mut pager, node, label_id)?;
             }
+        }
+
+        // 4. Staged vectors enter the vector index now that the transaction is durable.
+        for (node, vector) in self.pending_vectors {
+            self.engine.insert_vector(node, vector)?;
         }
 
         #[cfg(nervusdb_verif)]
